@@ -106,6 +106,64 @@ def main():
     for k, why in ibad[:3]:
         ck.fail("C13-containment", "an exception injected in a callback was not contained: " + why, {"scenario": inj_cases[k], "inject": inj_meta[k][2]})
 
+    # ---- family 2b: the exception leaves a `with market.transaction()` block after requests were accepted: they are sent all the same
+    tx_cases, tx_meta = [], []
+    for _ in range(24 if thorough else 8):
+        s = simgen.gen_scenario(rng, {"nstrats": [2], "p_iso": 1.1, "min_upd": 5, "max_upd": 8, "nmarkets": [1], "no_remove": True, "p_remove": 0.0, "p_place": 0.8, "kinds": ["L"]})
+        evs = [ev for ev in s["script"] if ev["s"] == 0 and any(a[0] == "place" for a in ev["acts"])]
+        if not evs:
+            continue
+        ev = rng.choice(evs)
+        places = [a for a in ev["acts"] if a[0] == "place"]
+        base_v, exc_v = copy.deepcopy(s), copy.deepcopy(s)
+        for v, tail in ((base_v, [["txn_end"]]), (exc_v, [["raise"]])):
+            for e2 in v["script"]:
+                if (e2["s"], e2["m"], e2["u"]) == (ev["s"], ev["m"], ev["u"]):
+                    e2["acts"] = [["txn_begin"]] + copy.deepcopy(places) + tail
+        tx_cases += [base_v, exc_v]; tx_meta.append((len(tx_cases) - 2, len(tx_cases) - 1))
+    touts = run_impl_parallel("simlib", [{"scenarios": [simgen.to_impl(v) for v in ch], "observe": "calls"} for ch in chunked(tx_cases, 8)], timeout=3600) if tx_cases else []
+    timpl = [r for o in touts for r in o["out"]]
+    tbad = []
+    for b, k in tx_meta:
+        if timpl[k]["error"] is not None:
+            tbad.append((k, "the run ended with %s" % timpl[k]["error"]))
+        elif ledger(timpl[k], 0) != ledger(timpl[b], 0):
+            tbad.append((k, "orders accepted inside a transaction block that was left by an exception do not end up as they do when the block ends normally (e.g. left Pending for ever, never sent)"))
+        elif ledger(timpl[k], 1) != ledger(timpl[b], 1):
+            tbad.append((k, "another strategy's orders changed because a transaction block was left by an exception"))
+    ck.family("exception_inside_transaction_block", len(tx_cases), len(tx_meta), [], sorted({k for k, _ in tbad}), dist={"pairs": len(tx_meta), "orders_in_blocks": sum(ledger(timpl[b], 0).count('"status"') for b, _ in tx_meta) if timpl else 0})
+    for k, why in tbad[:2]:
+        ck.fail("C13-containment", why, {"scenario": tx_cases[k]})
+
+    # ---- family 2c: strategies subscribing to the same market file with different listener arguments do not get each other's stream
+    lk_cases, lk_meta = [], []
+    for _ in range(16 if thorough else 6):
+        s = simgen.gen_scenario(rng, {"nstrats": [2], "p_iso": 1.1, "min_upd": 7, "max_upd": 11, "nmarkets": [1], "no_remove": True, "p_remove": 0.0, "p_place": 0.7, "p_inplay": 0.9, "kinds": ["L"]})
+        s["script"] = [ev for ev in s["script"] if ev["s"] == 1]          # only the unfiltered strategy trades
+        s["strategies"][0]["listener_kwargs"] = {"inplay": True}
+        alone = restrict(s, [1]); ab = s; ba = restrict(s, [1, 0])
+        lk_cases += [alone, ab, ba]; lk_meta.append(len(lk_cases) - 3)
+    louts2 = run_impl_parallel("simlib", [{"scenarios": [simgen.to_impl(v) for v in ch], "observe": "calls"} for ch in chunked(lk_cases, 9)], timeout=3600)
+    limpl2 = [r for o in louts2 for r in o["out"]]
+    lbad = []
+    for b in lk_meta:
+        a_, ab_, ba_ = limpl2[b: b + 3]
+        d0 = [(c[1], c[3]) for c in a_["calls"] if c[0] == 0 and c[1] in ("book", "closed")]
+        d1 = [(c[1], c[3]) for c in ab_["calls"] if c[0] == 1 and c[1] in ("book", "closed")]
+        d2 = [(c[1], c[3]) for c in ba_["calls"] if c[0] == 0 and c[1] in ("book", "closed")]
+        rewinds = any(t2 < t1 for run_ in (ab_, ba_) for t1, t2 in zip([c[3] for c in run_["calls"]], [c[3] for c in run_["calls"]][1:]))
+        if not (d0 == d1 == d2):
+            lbad.append((b, "C13-isolation", "a strategy without listener arguments receives %d / %d / %d updates alone / after / before a strategy subscribed to the same file with {'inplay': True}: it was given the other strategy's filtered stream" % (len(d0), len(d1), len(d2))))
+        elif not (ledger(a_, 0) == ledger(ab_, 1) == ledger(ba_, 0)):
+            lbad.append((b, "C13-same-file-replayed-per-listener-arguments" if rewinds else "C13-isolation",
+                         "the ledger of a strategy differs between running alone and alongside a strategy with other listener arguments on the same file: the two streams of the file are replayed one after the other over the same Market, the second replay rewinds the market's clock and lapses / re-matches the resting orders of the strategy that ran first"))
+    ck.family("listener_arguments_not_shared", len(lk_cases), len(lk_meta), [], sorted({b for b, _, _ in lbad}), dist={"triples": len(lk_meta), "updates_seen_alone": sum(len([c for c in limpl2[b]["calls"] if c[1] == "book"]) for b in lk_meta)})
+    seen_k = set()
+    for b, key, why in lbad:
+        if key not in seen_k:
+            seen_k.add(key)
+            ck.fail(key, why, {"scenario": lk_cases[b + 1], "also": "the same strategies in the other registration order: restrict(scenario, [1, 0])"})
+
     # ---- family 3: raw-data and custom-event callbacks on a live framework
     lcases = []
     data_sets = [[{"id": "1.1", "x": 1}, {"id": "1.2"}], [{"marketId": "1.1", "eventId": "7"}, {"eventId": "8"}], [{"id": "1.1"}, {"marketId": "1.9"}, {"id": "1.3"}]]
